@@ -114,11 +114,44 @@ def _tol_forwarded(a, ev):
 
 
 # ------------------------------------------------------------------------------------- _pseudo_inverse_from_eig
+_JP = z3.Int('j!pinv')
+
+
+def _pinv_tol(a):
+  w0 = a.at_entry('w').term
+  return TH.vmax(w0) * z3.ToReal(a.w.dim(0)) * TH.eps_of(w0)       # documented default (rank-style tolerance in w's precision)
+
+
+def _pinv_wpost(a):
+  raw = a.raw('w')
+  return a.path.store[raw.loc].term
+
+
+def _pinv_spectrum(a):
+  w0, w1 = a.at_entry('w').term, _pinv_wpost(a)
+  if w1 is None:
+    return z3.BoolVal(False)
+  x = TH.at1(w0, _JP)
+  ax = z3.If(x >= 0, x, -x)
+  return z3.Implies(z3.And(_JP >= 0, _JP < a.w.dim(0)), TH.at1(w1, _JP) == z3.If(ax > _pinv_tol(a), 1 / x, 0))
+
+
+def _pinv_result(a, r):
+  w1 = _pinv_wpost(a)
+  if w1 is None or r.term is None:
+    return z3.BoolVal(False)
+  return r.term == TH.mm(TH.colscale(a.V.term, w1), TH.tr(a.V.term))
+
+
 register(Contract(
     '_util:_pseudo_inverse_from_eig',
     cases=[Case('default', dict(w=Arr(1, dims=['d'], owner=FRESH_OWNER), V=Arr(2, dims=['d', 'd'], owner=FRESH_OWNER), tol=NoneT()))],
     ensures={'shape': lambda a, r: z3.And(r.ndim == 2, r.dim(0) == a.V.dim(0), r.dim(1) == a.V.dim(0)),
-             'fresh': lambda a, r: z3.BoolVal(len(r.owner) == 0)},
+             'fresh': lambda a, r: z3.BoolVal(len(r.owner) == 0),
+             # value level (C20: "the (pseudo-)inverse"): the spectrum actually used is 1/w on the eigenvalues above the tolerance and
+             # EXACTLY ZERO on the others (Penrose equations then follow by Lean pinv_penrose), and the result is V diag(w+) V^H
+             'spectrum-inverted-above-tol-zero-below': lambda a, r: _pinv_spectrum(a),
+             'result-is-V-diag(w+)-Vh': lambda a, r: _pinv_result(a, r)},
     raises={},
     returns=mat_result(lambda a: [a.V.dim(0), a.V.dim(0)]),
     consumes=('w',),
